@@ -4,13 +4,19 @@
    history was replayed in one fresh interpreter by harness/hist_driver.py calling the
    real entry points; the line carries what the step produced, what the same letter
    produced when compiled alone (fields i..), what the same step of the same history produced
-   under PYTHONHASHSEED=0 (fields z..), and projections of the process-wide caches.
+   under PYTHONHASHSEED=0 (fields z..), projections of the process-wide caches, the container the
+   model was handed over in (c), the options that write additional files (opts), every file the step
+   wrote (art: [name, digest] pairs) and digests of the caller's object before and after the call
+   (inb, ina; ino = the bytes the caller put there at the start of the history).
 
    Property clauses (reported in viol, one run lists all of them):
-     HistoryIndependent    the step succeeded => same output/summary digests as alone
+     HistoryIndependent    the step succeeded => same output/summary digests and the same set of
+                           written files (names and contents) as alone
      NoFailureFromHistory  the step failed    => it fails in the same way alone
      HashSeedIndependent   same outcome as under PYTHONHASHSEED=0
-     EntryPointIndependent (isolated steps) same output digest through the other entry points
+     EntryPointIndependent (isolated steps) same outcome through the other entry points and the other
+                           containers: every peer succeeds iff this step does, with the same output digest
+     CallerStateUntouched  the object handed to the entry point holds the same bytes after the call
    Conformance of the observed cache transitions with History.tla is reported in drift
    and is never a violation. *)
 EXTENDS Integers, Sequences, FiniteSets, Json, IOUtils, TLC
@@ -19,26 +25,35 @@ CONSTANT PolicyC
 Trace == ndJsonDeserialize(IOEnv.TRACE_FILE)
 
 VARIABLES l, viol, drift, st, hist, res
-H == INSTANCE History WITH Letters <- {}, VK <- <<>>, WK <- <<>>, Acc <- <<>>, MaxLen <- 3,
-                           Policy <- PolicyC, SeedsRng <- TRUE
+H == INSTANCE History WITH Letters <- {}, VK <- <<>>, WK <- <<>>, Acc <- <<>>, Opt <- <<>>, Mdl <- <<>>,
+                           InPlace <- <<>>, MaxLen <- 4, Policy <- PolicyC, SeedsRng <- TRUE, ReaderCopies <- TRUE
 
 ToSet(q) == {q[j] : j \in 1..Len(q)}
 Ev == Trace[l]
 
-Obs(e) == [ok |-> e.ok, exc |-> e.exc, dig |-> e.dig, csv |-> e.csv]
-IsoOf(e) == [ok |-> e.iok, exc |-> e.iexc, dig |-> e.idig, csv |-> e.icsv]
-Seed0Of(e) == [ok |-> e.zok, exc |-> e.zexc, dig |-> e.zdig, csv |-> e.zcsv]
+Obs(e) == [ok |-> e.ok, exc |-> e.exc, dig |-> e.dig, csv |-> e.csv, art |-> ToSet(e.art)]
+IsoOf(e) == [ok |-> e.iok, exc |-> e.iexc, dig |-> e.idig, csv |-> e.icsv, art |-> ToSet(e.iart)]
+Seed0Of(e) == [ok |-> e.zok, exc |-> e.zexc, dig |-> e.zdig, csv |-> e.zcsv, art |-> ToSet(e.zart)]
+WroteInput(e) == e.ina # e.inb
+PeerAgrees(e, p) == p.ok = e.ok /\ (p.ok => p.dig = e.dig)
 
+(* e.ref = "same": the reference (fields i..) is the same letter compiled alone;
+   e.ref = "peer": it is the same model and options compiled alone through convert_bytes(bytearray), the step itself
+                   used another container: a difference is a difference between containers *)
 Failures(e) ==
-      (IF ~H!StepIndependent(Obs(e), IsoOf(e)) THEN {"HistoryIndependent"} ELSE {})
- \cup (IF ~H!StepNoFailure(Obs(e), IsoOf(e)) THEN {"NoFailureFromHistory"} ELSE {})
+      (IF e.ref = "same" /\ ~H!StepIndependent(Obs(e), IsoOf(e)) THEN {"HistoryIndependent"} ELSE {})
+ \cup (IF e.ref = "same" /\ ~H!StepNoFailure(Obs(e), IsoOf(e)) THEN {"NoFailureFromHistory"} ELSE {})
+ \cup (IF e.ref # "same" /\ ~H!SameResult(Obs(e), IsoOf(e)) THEN {"EntryPointIndependent"} ELSE {})
  \cup (IF Obs(e) # Seed0Of(e) THEN {"HashSeedIndependent"} ELSE {})
- \cup (IF \E p \in ToSet(e.peers) : p # e.dig THEN {"EntryPointIndependent"} ELSE {})
+ \cup (IF \E p \in ToSet(e.peers) : ~PeerAgrees(e, p) THEN {"EntryPointIndependent"} ELSE {})
+ \cup (IF WroteInput(e) THEN {"CallerStateUntouched"} ELSE {})
 
 (* state of the specification at the call, and after it *)
 Before(e) == H!Pre(IF e.i = 1 THEN H!Boot ELSE st, e.e)
 Seeded(e) == e.rnga # e.rngb
-After(e) == H!Post(Before(e), e.i, e.e, e.mo, e.acc, ToSet(e.vk), ToSet(e.wk), ~e.ok, Seeded(e))
+ParOf(e) == [vk |-> ToSet(e.vk), wk |-> ToSet(e.wk), acc |-> e.acc, opts |-> ToSet(e.opts), mdl |-> e.mdl, c |-> e.c,
+             inplace |-> WroteInput(e)]
+After(e) == H!Post(Before(e), e.i, e.e, e.mo, ParOf(e), ~e.ok, Seeded(e), WroteInput(e))
 
 Drift(e) ==
     LET S == Before(e)
@@ -54,7 +69,9 @@ Drift(e) ==
   \cup (IF e.ams > 0 /\ H!StaleAddr(S, vk, wk) = {} THEN {"addrmap.stale"} ELSE {})
   \cup (IF (e.ddba = 0) # (P.debugdb = {}) THEN {"debugdb.cleared"} ELSE {})
   \cup (IF e.ok /\ e.iok /\ Seeded(e) /\ e.rnga # e.irnga THEN {"rng"} ELSE {})
-  \cup (IF H!ObservedKind(Obs(e), IsoOf(e)) \notin H!AllowedKinds(S, vk, wk, e.acc) THEN {"outcome"} ELSE {})
+  \cup (IF (H!Kept(e.c) /\ e.inb # e.ino) # H!Expo(S, ParOf(e)).buf THEN {"cbuf.read"} ELSE {})
+  \cup (IF WroteInput(e) # H!Wrote(ParOf(e), "ok") THEN {"cbuf.written"} ELSE {})
+  \cup (IF H!ObservedKind(Obs(e), IsoOf(e)) \notin H!AllowedKinds(S, ParOf(e)) THEN {"outcome"} ELSE {})
 
 Init == l = 1 /\ viol = {} /\ drift = {} /\ st = H!Boot /\ hist = <<>> /\ res = <<>>
 Next == /\ l <= Len(Trace)
